@@ -995,7 +995,7 @@ theorem gcKey_step (s : RState) (h : RInv s) (f : Fam) (r : Bool) (ih : Bytes) (
     · exact this.2.1
     · exact this.1
   have hseed : keyIsSeeder kX = r := by rw [← hkX]; exact keyIsSeeder_swarmKey f r ih
-  unfold gcKey
+  unfold gcKey gcKeyApply gcKeyRead
   simp only [hseed]
   generalize hstale : (hget s kX).filter (fun e => decide (e.2 ≤ cutoff)) = stale
   have rs1 : HRepl s (stale.foldl (fun acc e => (hdel acc kX e.1).1) s) kX ((hget s kX).filter (fun e => decide (e.2 > cutoff))) := by
